@@ -24,6 +24,7 @@ Keys (all valid Go map keys with reflexive equality; the token is the key's iden
 `b<uint8>`, `s<text>` (routable by remap); `t<int>:<text>` struct, `p<n>` pointer to object n, `f<int>` / `f-0` float64
 (`f-0` is the same key as `f0`): on wide / xhash maps an Acquire* on these → `panic:unroutable` (remap.ToBytes, before
 any lock; the caller id is used up, nothing is stored).  `poke <n>` → `ok` (pointee of `p<n>` changed, key unchanged).
+`newmap <variant> <rw ≥ 1> <prime>` → `ok`   another container is created and used while this one is in use (no effect here).
 `burst <variant> <rw> <prime> <n ≤ 20000>` → `live=<n> after=<0>`   n distinct keys held at once, then all released.
 Ill-formed or not-enabled lines → `bad-op`.
 The delete guard is the one regenerated from the source (`Nv.Gen.C01.cfg`).
@@ -137,6 +138,13 @@ def stepLine (o : OSt) (line : String) : OSt × String :=
     if (v == "single" || v == "wide" || v == "xhash") && inR (natCanon rw 6) 1 999999 && inR (natCanon prime 4) 0 9999 &&
         inR (natCanon g 2) 1 64 && inR (natCanon nk 1) 1 8 && inR (natCanon ms 4) 1 5000 && inR (natCanon seed 9) 0 999999999
     then (OSt.empty, "ok") else (o, "bad-op")
+  | ["newmap", v, rw, prime] =>
+    -- another container is created and used in the process: a different map — nothing changes here
+    -- (`sem_wide_pure_routing`: routing is a pure function of the key, `HAct.other` is invisible)
+    if !o.started || !(v == "single" || v == "wide" || v == "xhash") then (o, "bad-op") else
+    match natCanon rw 6, natCanon prime 4 with
+    | some rw, some _ => if rw == 0 then (o, "bad-op") else (o, "ok")
+    | _, _ => (o, "bad-op")
   | ["poke", n] =>
     -- the pointee of pointer key `p<n>` changes; the key (a pointer) does not
     if !o.started || (natCanon n 3).isNone then (o, "bad-op") else (o, "ok")
